@@ -124,11 +124,29 @@ def carr_from_list(xs, sort="real"):
 
 
 def sym_array(name, shape, sort="real"):
+    if sort == "xreal":
+        # cells may be NaN: value function + flag function (terms.XR)
+        f = z3.Function(name, *([T.IntS] * len(shape)), T.RealS)
+        g = z3.Function(name + "__nan", *([T.IntS] * len(shape)), T.BoolS)
+        a = Arr(shape, lambda idx, f=f, g=g: T.xr(f(*[T.to_z3(i) for i in idx]), g(*[T.to_z3(i) for i in idx])), (), sort, name)
+        a.func, a.nanfunc = f, g
+        return a
     zs = T.RealS if sort == "real" else (T.IntS if sort == "int" else T.BoolS)
     f = z3.Function(name, *([T.IntS] * len(shape)), zs)
     a = Arr(shape, lambda idx, f=f: f(*[T.to_z3(i) for i in idx]), (), sort, name)
     a.func = f
     return a
+
+
+def cell_sort(a):
+    """sort for a fresh array standing for `a` (havoc): 'xreal' when a generic cell may be NaN"""
+    if a.sort == "xreal":
+        return "xreal"
+    try:
+        v = a.get(tuple(T.Fresh.int("hx") for _ in a.shape))
+    except Unsupported:
+        return a.sort
+    return "xreal" if isinstance(v, T.XR) else a.sort
 
 
 class Obj:
